@@ -1,11 +1,18 @@
 (* C02 All streams see one FIFO order consistent with producers and real time.
-   Proved here: there is a single claim log; no step ever removes, reorders or rewrites an entry - a step either
-   leaves it alone or appends the value of the send that claims at that step (for all configurations, populations
-   and schedules); the head counter is the length of that log.  Hence the order of accepted values is fixed at the
-   claiming steps, which lie inside the calls (program order and real-time order of non-overlapping sends follow
-   from the order of the steps).  Not proved: that every stream delivers along this log (see C01). *)
+   Proved here, for all configurations, populations and schedules:
+   - there is a single claim log; no step ever removes, reorders or rewrites an entry - a step either leaves it
+     alone or appends the value of the send that claims at that step; the head counter is the length of that log;
+   - every commit of a consumer moves its stream's cursor by exactly one;
+   - C02_history_claims_are_the_log: in the call history (calls, claims, deliveries and returns in the order in
+     which they happened) the i-th claim event is the claim of position i with the i-th value of the log: the
+     order of accepted values is the order in which the claiming steps happened.  A claiming step lies inside its
+     send call, so two sends of one handle, and any two sends of which the first returned before the second was
+     called, claim in that order;
+   - with Props/C01.v: every stream delivers consecutive positions of this one log, in delivery order.
+   Not proved as a theorem: the statement about call and return events of non-overlapping sends in the form of the
+   property (the oracle checks it on every real trace). *)
 From Coq Require Import NArith List Bool.
-Require Import MQ.Arith64 MQ.Arith64Facts MQ.Types MQ.State MQ.Model MQ.Exec MQ.Reach MQ.Fields MQ.InvLogOrder MQ.InvHead MQ.InvPos.
+Require Import MQ.Arith64 MQ.Arith64Facts MQ.Types MQ.State MQ.Model MQ.Exec MQ.Reach MQ.Fields MQ.InvLogOrder MQ.InvHead MQ.InvPos MQ.HistStepA MQ.InvHist.
 Import ListNotations.
 Open Scope N_scope.
 
@@ -42,4 +49,21 @@ Example C02_witness :
   let s1 := reach_by c false (Start 0 (CTrySend 5) :: repeat (Step 0) 6) in
   let s2 := reach_by c false (Start 0 (CTrySend 5) :: repeat (Step 0) 6 ++ Start 0 (CTrySend 6) :: repeat (Step 0) 6) in
   g_log (sh s1) = [0] /\ g_log (sh s2) = [0; 1].
+Proof. vm_compute. split; reflexivity. Qed.
+
+Theorem C02_history_claims_are_the_log : forall c fut s i v p,
+  mreach c fut s -> lenN (ags s) < B62 -> lenN (g_log (sh s)) < B62 ->
+  nth_error (rev (hclaims (g_hist (sh s)))) i = Some (v, p) ->
+  p = N.of_nat i /\ nth_error (g_log (sh s)) i = Some v.
+Proof. exact history_claims_are_the_log. Qed.
+Check C02_history_claims_are_the_log : forall c fut s i v p,
+  mreach c fut s -> lenN (ags s) < B62 -> lenN (g_log (sh s)) < B62 ->
+  nth_error (rev (hclaims (g_hist (sh s)))) i = Some (v, p) ->
+  p = N.of_nat i /\ nth_error (g_log (sh s)) i = Some v.
+Print Assumptions C02_history_claims_are_the_log.
+
+Example C02_history_witness :
+  let c := mk_cfg MPMC 2 WBusy in
+  let s := reach_by c false (Start 0 (CTrySend 5) :: repeat (Step 0) 6 ++ Start 0 (CTrySend 6) :: repeat (Step 0) 6) in
+  rev (hclaims (g_hist (sh s))) = [(0, 0); (1, 1)] /\ g_log (sh s) = [0; 1].
 Proof. vm_compute. split; reflexivity. Qed.
